@@ -706,6 +706,8 @@ def rule_f(ck, u):
         TOK.add((origin, f['status'][1], node_kind(f['node'], p)))
     ck.analysed['paths'] += 1
 
+    dangling = []
+
     def sat(conds, X, sm):
         """does abstract value sm of call term X satisfy the path conditions that mention X?"""
         origin, st, nk = sm
@@ -725,8 +727,8 @@ def rule_f(ck, u):
                     return False
                 continue
             elif a[0] == 'f' and a[2] == 'type' and strip(a[1]) == ('fv', X, 'node'):
-                if nk == 'null':
-                    continue                    # dereference of NULL: C20.b's business, not decided here
+                if nk in ('null', 'freed'):
+                    continue                    # dereference of NULL: C20.b's business; of a released node: reported below
                 v = {'empty': T_EMPTY, 'pair': T_PAIR}.get(nk, -1)
                 if v == -1 and c[3][1] not in (T_EMPTY, T_PAIR):
                     raise _Shape('condition %s on an atom' % fmt(c))
@@ -751,7 +753,7 @@ def rule_f(ck, u):
             return set(('list' if st_ == SUCCESS else 'error', st_, nk) for st_, nk, how, w in LIST)
         raise _Shape('result of %s' % t[1])
 
-    def apply(sm, f, p):
+    def apply(sm, f, p, base=None):
         origin, st, nk = sm
         if 'status' in f:
             if not sym.is_c(f['status']):
@@ -760,6 +762,13 @@ def rule_f(ck, u):
         if 'node' in f:
             v = strip(f['node'])
             nk = 'null' if (v[0] == 'h' and 'sx_destroy' in fmt(v)) else node_kind(v, p)
+        elif base is not None and nk != 'null':
+            # the node of the callee's result is handed on as it is: a path that gave it back to the allocator and did
+            # not reset the field returns a dangling pointer
+            for e in p.calls('free'):
+                if e.args and strip(e.args[0]) == ('fv', base, 'node'):
+                    nk = 'freed'
+                    dangling.append(cast.where(e.node) if getattr(e, 'node', None) else None)
         return (origin, st, nk)
 
     for _ in range(12):
@@ -774,7 +783,7 @@ def rule_f(ck, u):
                     others = [e.result for e in p.calls('sx_parse_token') if e.result != base]
                     if others and not any(sat(p.cond_terms(), others[0], t) for t in TOK):
                         continue
-                    P.add(apply(sm, f, p))
+                    P.add(apply(sm, f, p, base))
         for p in PL['sx_parse_list']:
             car = p.calls('sx_parse_')
             cdr = p.calls('sx_parse_list')
@@ -812,7 +821,7 @@ def rule_f(ck, u):
                     for st2, nk2, how2, w2 in set(LIST):
                         LIST.add((st2, 'pair', 'cons', w))
                 elif base == X:
-                    sm2 = apply(sm, f, p)
+                    sm2 = apply(sm, f, p, base)
                     LIST.add((sm2[1], sm2[2], 'terminator:%s' % sm[0] if sm2[1] == SUCCESS else 'error', w))
                 else:
                     raise _Shape('list path %s' % p.describe(3))
@@ -844,7 +853,7 @@ def rule_f(ck, u):
         base, f = fields(p.ret)
         for sm in P:
             if sat(p.cond_terms(), base, sm):
-                TOP.add(apply(sm, f, p))
+                TOP.add(apply(sm, f, p, base))
     stray = [sm for sm in TOP if sm[0] == 'close' and sm[1] == SUCCESS]
     ck.verdict(not stray, 'C20.f', 'sx_parse:stray-close', cast.where(u.fn('sx_parse')),
                'a ")" that closes nothing is reported as an error' if not stray else
@@ -856,6 +865,12 @@ def rule_f(ck, u):
     leak = [sm for sm in TOP if sm[1] not in (SUCCESS, FOUND) and sm[2] != 'null']
     ck.verdict(not leak, 'C20.f', 'sx_parse:error-without-tree', cast.where(u.fn('sx_parse')),
                'every error summary of sx_parse carries no tree' if not leak else 'error status %d returned together with a %s node' % (leak[0][1], leak[0][2]))
+    freed = sorted(set('%s (status %d)' % (sm[0], sm[1]) for sm in (P | TOP) if sm[2] == 'freed') |
+                   set('list (status %s)' % st for st, nk, how, w in LIST if nk == 'freed'))
+    ck.verdict(not freed, 'C20.f', 'reader:dangling-node', (dangling[0] if dangling and dangling[0] else cast.where(u.fn('sx_parse_'))),
+               'no result of the reader still points to a node the same path gave back to the allocator (a released node is reset through sx_destroy)' if not freed else
+               'the result for input of origin %s keeps the pointer to a node that was passed to free() on the same path: the caller destroys it again '
+               '(sx_parse calls sx_destroy on every error result) - a double free on e.g. a stray ")"' % ', '.join(freed))
     ck.floor('C20.f', 'result summaries', len(TOK) + len(P) + len(LIST), 12)
 
 
